@@ -28,7 +28,7 @@ from antlr4 import *
 from .aggregator import DocumentationAggregator
 from cminx import Settings
 from .documentation_types import DocumentationType, ModuleDocumentation
-from .parser import ParserErrorListener, LexerErrorListener
+from .parser import ParserErrorListener, LexerErrorListener, CMakeSyntaxError
 from .parser.CMakeLexer import CMakeLexer
 from .parser.CMakeParser import CMakeParser
 from .rstwriter import RSTWriter, Directive
@@ -113,7 +113,18 @@ class Documenter(object):
 
         # Parse and lex the file, then walk the tree and aggregate the
         # documented commands
-        self.walker.walk(self.aggregator, self.parser.cmake_file())
+        tree = self.parser.cmake_file()
+
+        # The parser's error listener raises on every syntax error, but when ANTLR
+        # reports the error from inside a sub-rule the enclosing rule catches the
+        # re-raised RecognitionException, recovers and returns a truncated tree.
+        # Never document a file whose parse reported an error.
+        if self.parser.getNumberOfSyntaxErrors() > 0:
+            s = CMakeSyntaxError()
+            s.msg = f"{self.parser.getNumberOfSyntaxErrors()} syntax error(s) while parsing CMake source"
+            raise s
+
+        self.walker.walk(self.aggregator, tree)
 
         # All the documented commands are now stored in aggregator.documented,
         # each element is a namedtuple representing the type of documentation it is.
